@@ -203,10 +203,15 @@ def scan_file(rel, src):
     return cells
 
 
+# round 3: the multi-stream driver (one Transporter / Stepper / CoreState per stream) is scanned
+# too; paths are relative to src/ ("../app/celer-sim/...")
+EXTRA_CELL_DIRS = ["../app/celer-sim"]
+
+
 def generate(repo=REPO):
     cells = []
-    for d in DIRS:
-        root = os.path.join(repo, "src", d)
+    for d in DIRS + EXTRA_CELL_DIRS:
+        root = os.path.normpath(os.path.join(repo, "src", d))
         for dp, dns, fns in os.walk(root):
             dns.sort()
             for fn in sorted(fns):
